@@ -92,6 +92,13 @@ impl PkeSealingVersion for V1 {
         let c = rsa_encrypt(&sealing_key.0, &BigUint::from_bytes_be(&r))
             .map_err(|_| PasetoError::CryptoError)?
             .to_bytes_be();
+        // `to_bytes_be` drops leading zero bytes, but the format carries exactly 512.
+        let mut c_padded = [0u8; 512];
+        let start = 512usize
+            .checked_sub(c.len())
+            .ok_or(PasetoError::CryptoError)?;
+        c_padded[start..].copy_from_slice(&c);
+        let c = c_padded;
 
         let k = sha2::Sha384::digest(&c);
 
